@@ -150,6 +150,37 @@ var slices = map[string]slice{
 	},
 }
 
+// rename returns a copy of the slice with every name equal to or under `from` moved under `to`.
+func (s slice) rename(from, to string) slice {
+	rn := func(n string) string {
+		if n == from || strings.HasPrefix(n, from+"/") {
+			return to + n[len(from):]
+		}
+		return n
+	}
+	rl := func(l []string) []string {
+		out := make([]string, len(l))
+		for i, n := range l {
+			out[i] = rn(n)
+		}
+		return out
+	}
+	s.inames, s.dnames = rl(s.inames), rl(s.dnames)
+	ie := append([]iOp{}, s.iextra...)
+	for i := range ie {
+		ie[i].name = rn(ie[i].name)
+	}
+	de := append([]dOp{}, s.dextra...)
+	for i := range de {
+		de[i].name = rn(de[i].name)
+	}
+	s.iextra, s.dextra = ie, de
+	if len(s.routine) > 0 {
+		report.Fatal("rename: slices with routine op labels are not supported")
+	}
+	return s
+}
+
 func (s slice) ops() (names []string, defs map[string]opDef) {
 	defs = map[string]opDef{}
 	add := func(n string, d opDef) {
@@ -291,6 +322,23 @@ func build(cfgName string) explore.System {
 	if !ok {
 		report.Fatal("unknown slice %q", sl)
 	}
+	// optional flags after the four fields: "link" = arrivals through a real NDNLPLinkService;
+	// "t1" = the driven thread is thread 1 of 2 (the names /a... are replaced by ones that the
+	// link service dispatches to that thread; tokens carry thread id 1)
+	link, t1, nameA := false, false, "/a"
+	for _, x := range strings.Fields(cfgName)[4:] {
+		switch {
+		case x == "link":
+			link = true
+		case x == "t1":
+			t1 = true
+			nameA = fwsim.New(fwsim.Config{ThreadID: 1}).NameForThread("a", "/b", "/b/c")
+			slc = slc.rename("/a", nameA)
+		case strings.HasPrefix(x, "dev<="):
+		default:
+			report.Fatal("bad config name %q", cfgName)
+		}
+	}
 	s.names, s.defs = slc.ops()
 	routine := map[string]bool{}
 	for _, n := range slc.routine {
@@ -303,10 +351,14 @@ func build(cfgName string) explore.System {
 		s.allOps = append(s.allOps, explore.Op{Name: n, Dev: len(routine) > 0 && !routine[n]})
 	}
 	s.cfg = fwsim.Config{
+		RealLinkService: link,
 		Routes: []fwsim.Route{
-			{Prefix: "/a", Face: fwsim.N2, Cost: 1}, {Prefix: "/a", Face: fwsim.N3, Cost: 2},
+			{Prefix: nameA, Face: fwsim.N2, Cost: 1}, {Prefix: nameA, Face: fwsim.N3, Cost: 2},
 			{Prefix: "/localhost", Face: fwsim.L5, Cost: 1},
 		},
+	}
+	if t1 {
+		s.cfg.ThreadID = 1
 	}
 	switch st {
 	case "br":
@@ -442,14 +494,14 @@ func (s *sys) step(in *inst, op explore.Op, check bool) (v []report.Violation) {
 		var lp fwsim.LP
 		switch o.tok {
 		case "echo0":
-			lp.PitToken = fwsim.MakeToken(0, in.live[0].tok)
+			lp.PitToken = in.sim.Token(in.live[0].tok)
 		case "echo1":
-			lp.PitToken = fwsim.MakeToken(0, in.live[1].tok)
+			lp.PitToken = in.sim.Token(in.live[1].tok)
 		case "echoGone":
 			// a token this forwarder did attach, to an Interest whose PIT entry is gone by now
-			lp.PitToken = fwsim.MakeToken(0, in.gone[len(in.gone)-1])
+			lp.PitToken = in.sim.Token(in.gone[len(in.gone)-1])
 		case "foreign":
-			lp.PitToken = fwsim.MakeToken(0, 0xFFFFFFF1)
+			lp.PitToken = in.sim.Token(0xFFFFFFF1)
 		case "four":
 			lp.PitToken = []byte{0xde, 0xad, 0xbe, 0xef}
 		}
@@ -631,6 +683,8 @@ func configs(th bool) []explore.Config {
 		add("flags", "mc", "cs0", "tree", 4)
 		add("time", "mc", "cs1", "ht", 4)
 		add("time", "br", "cs0", "tree", 4)
+		add("tokens", "mc", "cs1", "tree link", 4) // arrivals through the real NDNLPLinkService
+		add("tokens", "br", "cs1", "ht t1", 4)     // the driven thread is thread 1 of 2
 		add("core", "br", "cs1", "tree", 6)
 		add("core", "mc", "cs0", "ht", 6)
 		chain("mc", "cs1", "tree", 7, 1)
@@ -656,6 +710,13 @@ func configs(th bool) []explore.Config {
 				add("core", st, cs, fib, 7)
 			}
 		}
+	}
+	// the other arrival path (real NDNLPLinkService) and the other thread identity
+	for _, st := range []string{"br", "mc"} {
+		add("tokens", st, "cs1", "tree link", 5)
+		add("names", st, "cs1", "ht link", 5)
+		add("tokens", st, "cs1", "tree t1", 5)
+		add("tokens", st, "cs0", "ht link t1", 5)
 	}
 	return c
 }
